@@ -77,6 +77,9 @@ func DecodeGeneric(token string) (*GenericClaims, error) {
 		if !gc.verify(chunks[1], sig) {
 			return nil, errors.New("claim failed V1 signature verification")
 		}
+		if gc.GenericClaims.Data == nil {
+			gc.GenericClaims.Data = make(map[string]interface{})
+		}
 		if tp := gc.GenericFields.Type; tp != "" {
 			// the conversion needs to be from a string because
 			// on custom types the type is not going to be one of
